@@ -9,8 +9,12 @@ use std::cell::RefCell;
 use std::io::{BufRead, Write};
 use std::panic::{catch_unwind, AssertUnwindSafe};
 
+mod abi;
 mod daemon;
 mod seg;
+#[allow(dead_code, clippy::all)]
+#[path = "/repo/clock-bound-ffi/src/lib.rs"]
+mod ffi;
 
 thread_local! {
     pub static VCLOCK: RefCell<VClock> = RefCell::new(VClock::default());
@@ -156,6 +160,9 @@ fn main() {
             "open" => seg::cmd_open(&rest),
             "snapshot_script" => seg::cmd_snapshot_script(&rest),
             "writegen" => seg::cmd_writegen(&rest),
+            "layout" => abi::cmd_layout(&rest),
+            "abi" => abi::cmd_abi(&rest),
+            "recreate" => seg::cmd_recreate(&rest),
             "snapshot_stall" => seg::cmd_snapshot_stall(&rest),
             "e2e" => daemon::cmd_e2e(&rest),
             "ping" => "pong".to_string(),
